@@ -23,11 +23,19 @@ pub struct Prog {
     pub naming: u8,
 }
 
+/// naming 5: the states are overlapping slices of ONE static buffer; a rule may answer with a `&'static str` that is
+/// not a view of its argument (same length and different content, or overlapping the argument's memory and running past it)
+static STATIC_BUF: &str = "abcdefghijklmnopqrstuvwx";
+const STATIC_SLICES: [(usize, usize); 16] = [(0, 4), (2, 8), (4, 8), (1, 5), (0, 8), (6, 10), (3, 7), (8, 12), (2, 6), (5, 9), (0, 2), (10, 16), (7, 11), (12, 16), (1, 3), (9, 13)];
+fn static_state(i: u8) -> &'static str {
+    let (a, b) = STATIC_SLICES[i as usize % 16];
+    &STATIC_BUF[a..b]
+}
 const PEEL_BASE: &str = "[\u{3000}(\u{e9}{<\u{10428}|a|b\u{6f22}>}c) ]xyz\u{20ac}q";
 const NEST_BASE: &str = "é1€3𝄞5ü7ß9abcxyz";
 fn state_name(naming: u8, i: u8) -> String {
     static CACHE: std::sync::OnceLock<Vec<Vec<String>>> = std::sync::OnceLock::new();
-    let c = CACHE.get_or_init(|| (0..5u8).map(|n| (0..16u8).map(|i| state_name_uncached(n, i)).collect()).collect());
+    let c = CACHE.get_or_init(|| (0..6u8).map(|n| (0..16u8).map(|i| state_name_uncached(n, i)).collect()).collect());
     if (naming as usize) < c.len() && (i as usize) < 16 {
         return c[naming as usize][i as usize].clone();
     }
@@ -44,6 +52,7 @@ fn state_name_uncached(naming: u8, i: u8) -> String {
             let i = (i as usize).min(cs.len() / 2);
             cs[i..cs.len() - i].iter().collect()
         }
+        5 => static_state(i).to_string(),
         // 4: lengths that differ by orders of magnitude (an application may grow or shrink the string enormously)
         _ => {
             const LENS: [usize; 13] = [1, 0, 40, 2000, 2, 5000, 37, 3, 700, 19, 100, 5, 64];
@@ -104,6 +113,9 @@ pub fn check_prog(p: &Prog, l: &mut Local) -> Check {
                     let n = state_name(2, t).len();
                     return Ok(Cow::Borrowed(&s[..n]));
                 }
+                if p.naming == 5 && (p.borrow_mask >> (8 + t % 8)) & 1 == 1 {
+                    return Ok(Cow::Borrowed(static_state(t)));
+                }
                 if p.naming == 3 && t > i && (p.borrow_mask >> (8 + t % 8)) & 1 == 1 {
                     // an interior view: the target is the input with (t-i) characters peeled off both ends
                     let target = state_name(3, t);
@@ -120,6 +132,8 @@ pub fn check_prog(p: &Prog, l: &mut Local) -> Check {
     });
     l.eval();
     let got = match p.arg_form {
+        0 if p.naming == 5 => obs(&stabilize(static_state(p.start), f)),
+        2 if p.naming == 5 => obs(&stabilize(Cow::Borrowed(static_state(p.start)), f)),
         0 => obs(&stabilize(start.as_str(), f)),
         1 => obs(&stabilize(start.clone(), f)),
         2 => obs(&stabilize(Cow::Borrowed(start.as_str()), f)),
@@ -181,6 +195,7 @@ pub fn run(run: &Run) {
         "Generator ('programs'): (a) ALL functions f: S -> S + {Err1, Err2} on k states for k <= K (K=6 quick, 7 thorough) from every start state, with opaque and with nested-prefix state strings \
          (total/failing, converging after 0..3 changes, cycles of every length, tails), with the start passed as &str; (b) proptest functions on up to \
          12 states with three error kinds, diverging continuation (s -> s+'a'), Cow::Borrowed vs Cow::Owned for unchanged results, borrowed SUB-SLICES of the input for changed results (nested-prefix and peeled-on-both-ends state strings, with borrowed and owned start values), \
+         overlapping slices of one static buffer returned as &'static borrows (not views of the argument), \
          state strings whose lengths differ by orders of magnitude (0 .. 5 000 characters), start passed as \
          &str / String / Cow::Borrowed / Cow::Owned, ASCII and multi-byte state strings. Oracle: reference stabilize (apply up to 4 times, accept the \
          first x with f(x)=x, propagate f's error, else Invalid) + instrumented closure: arguments follow the orbit of the start, <= 4 applications, \
@@ -205,7 +220,7 @@ pub fn run(run: &Run) {
                     rem /= base;
                 }
                 for start in 0..k as u8 {
-                    for (naming, arg_form) in [(0u8, 0u8), (2, 0), (2, 1), (3, 1), (3, 0), (4, (idx % 4) as u8)] {
+                    for (naming, arg_form) in [(0u8, 0u8), (2, 0), (2, 1), (3, 1), (3, 0), (5, 0), (5, 1), (4, (idx % 4) as u8)] {
                         if naming == 4 && k > 5 && idx % 8 != 0 {
                             continue; // the huge strings of naming 4 are sampled for the larger k
                         }
@@ -223,7 +238,7 @@ pub fn run(run: &Run) {
     }
     let mk = || {
         (1usize..=12).prop_flat_map(|k| {
-            (vec(0u8..(k as u8 + 3), k), 0u8..k as u8, any::<u32>(), 0u8..4, 0u8..5)
+            (vec(0u8..(k as u8 + 3), k), 0u8..k as u8, any::<u32>(), 0u8..4, 0u8..6)
                 .prop_map(|(table, start, borrow_mask, arg_form, naming)| Prog { table, start, borrow_mask, arg_form, naming })
         })
     };
